@@ -301,17 +301,20 @@ def main():
             results.append(res)
         # widen the search if an obligation or the correspondence broke and no failing input yet
         broke = (not ok) or any(r['mismatch'] for r in results)
-        if broke and not any(r['specviol'] for r in results) and not harness_err:
+        if broke and not any(v for r in results for v in r['specviol'] if (' prop=' not in v or (' prop=' + prop) in v)) and not harness_err:
             for extra in range(1, 4):
                 for gen_name in cfg.get('cases', []):
                     res, e = run_cases(prop, gen_name, seed + 1000 * extra, 'thorough', log, tag='-w%d' % extra)
                     if res:
                         res['widened'] = True
                         results.append(res)
-                if any(r['specviol'] for r in results):
+                if any(v for r in results for v in r['specviol'] if (' prop=' not in v or (' prop=' + prop) in v)):
                     break
 
-    specviol = [v for r in results for v in r['specviol']]
+    def owned(v):
+        m = re.search(r' prop=(C\d+)', v)
+        return (m is None) or (m.group(1) == prop)
+    specviol = [v for r in results for v in r['specviol'] if owned(v)]
     mismatch = [v for r in results for v in r['mismatch']]
     n_cases = sum(r['n'] for r in results)
     classes = {}
